@@ -66,4 +66,29 @@ __CPROVER_assigns(signer->signature, signer->builder, signer->prevLeaf;
 		signer->prevLeaf != NULL: signer->prevLeaf->ref; signer->origPrevLeaf != NULL: signer->origPrevLeaf->ref;
 		g_cb_el, g_cb_n, g_cb_list, g_tb_last, g_tb_new_calls, g_tb_free_calls, g_tb_freed, g_sig_free_calls, g_sig_freed)
 __CPROVER_frees(signer->builder, signer->builder->cbList, signer->signature, signer->prevLeaf);
+
+/* KSI_BlockSigner_addLeaf (C19 / C16 mask chaining): the call either adds the leaf and returns OK, or leaves the
+ * signer exactly as it was: in particular the mask-chaining value prevLeaf is only advanced when the leaf is in
+ * the tree, and nothing fails once the leaf is in the tree ("repeating the operation without the fault gives the
+ * fault-free result"). */
+int KSI_BlockSigner_addLeaf(KSI_BlockSigner *signer, KSI_DataHash *hsh, int level, KSI_MetaData *metaData, KSI_BlockSignerHandle **handle)
+__CPROVER_requires(signer != NULL && signer->ctx != NULL && signer->builder != NULL && signer->metaData == NULL)
+__CPROVER_requires(handle == NULL || handle == &g_bsh_out)
+__CPROVER_requires(g_add_calls == 0 && g_bs_live >= 0 && g_bs_live < 1000)
+/* (L1) once the leaf is in the tree the call must succeed; a successful call put exactly one leaf into the tree */
+__CPROVER_ensures(IMPLIES(g_add_calls >= 1 && g_add_res == KSI_OK, __CPROVER_return_value == KSI_OK))
+__CPROVER_ensures(IMPLIES(__CPROVER_return_value == KSI_OK, hsh != NULL && g_add_calls == 1 && g_add_res == KSI_OK))
+/* (L2) a refused leaf leaves the mask chaining state and the out-parameter untouched, keeps nothing allocated */
+__CPROVER_ensures(IMPLIES(__CPROVER_return_value != KSI_OK,
+		signer->prevLeaf == __CPROVER_old(signer->prevLeaf) && (handle == NULL || *handle == __CPROVER_old(*handle)) &&
+		g_bs_live == __CPROVER_old(g_bs_live)))
+/* (L3) the per-leaf meta-data pointer never outlives the call; the rest of the signer is untouched */
+__CPROVER_ensures(signer->metaData == NULL && signer->builder == __CPROVER_old(signer->builder) && signer->iv == __CPROVER_old(signer->iv) &&
+		signer->origPrevLeaf == __CPROVER_old(signer->origPrevLeaf) && signer->signature == __CPROVER_old(signer->signature))
+/* (L4) success: a new handle (one reference for the caller) */
+__CPROVER_ensures(IMPLIES(__CPROVER_return_value == KSI_OK && handle != NULL, *handle != NULL && (*handle)->ref == 1 && (*handle)->signer == signer && (*handle)->leafHandle != NULL))
+__CPROVER_assigns(signer->metaData, signer->prevLeaf; handle != NULL: *handle;
+		signer->prevLeaf != NULL: signer->prevLeaf->ref; hsh != NULL: hsh->ref;
+		g_add_calls, g_add_res, g_bs_live)
+__CPROVER_frees(signer->prevLeaf);
 #endif
